@@ -63,6 +63,7 @@ def check(ctx) -> None:
     r194(ctx)
     r195(ctx)
     r196(ctx)
+    r197(ctx)
 
 
 def r191(ctx) -> None:
@@ -325,3 +326,14 @@ def r196(ctx) -> None:
     R.check(ok, f, f.node, 'new_session: the cached sets are the ones given '
             'to the Session', 'the Session is built from objects other '
             'than those cached for this identity')
+
+
+def r197(ctx) -> None:
+    R = ctx.rule('R19.7', 'the sieve state is built only from verified '
+                 'credentials', 1)
+    from .c09 import login_dominated
+    conn = ctx.proj.cls(SIEVE, 'ManageSieveConnection')
+    f = conn.own_method('_login')
+    if f is None:
+        raise AnchorError('ManageSieveConnection._login vanished')
+    login_dominated(ctx, R, f, 'sieve')
